@@ -1,14 +1,17 @@
 import Juniper.Generated.Par
+import Juniper.Generated.ParDoFacts
 /-!
-# Model of `parallel.Do` / `DoContext` (and the `Map` / `MapContext` wrappers) — C13
+# Model of `parallel.Do` / `DoContext` — C13 (the wrappers `Map` / `MapContext`: `Model/ParWrap.lean`)
 
 A labelled transition system: one label = one atomic step of one goroutine (the atomic add on the
 shared counter together with the bound test, the `ctx.Err()` test, the call of `f`, the return of
 `f` (environment), the errgroup bookkeeping of a worker that returned an error, `Wait` returning).
 All interleavings of the workers are the reachable states. The guards (`parallelism <= 0`,
 `parallelism > n`, `parallelism == 1`, `i >= n`, the counter's initial value and increment, the loop
-bounds) are the expressions regenerated from `parallel/parallel.go` (`Juniper.Gen.Par`); they enter
-through the record `Code`, instantiated once for `Do` and once for `DoContext`.
+bounds), the bodies of the two clamp statements (which variable gets which value) and the `init` / `post`
+clauses of the sequential loop and of the spawn loop are the expressions regenerated from
+`parallel/parallel.go` (`Juniper.Gen.Par`, `Juniper.Gen.ParDoFacts`); they enter through the record
+`Code`, instantiated once for `Do` and once for `DoContext`.
 
 `f` is the environment: `begin` hands it an index (and, for `DoContext`, a context whose state at
 entry is recorded), `fEnd` makes it return an arbitrary result. Core Lean only.
@@ -20,9 +23,16 @@ open Juniper.Gen
 structure Code where
   ctxMode : Bool
   clampLow : Int → Bool
+  /-- body of the first clamp: the pair (parallelism, n) after it, given (parallelism, n, GOMAXPROCS) -/
+  lowAssign : Int → Int → Int → Int × Int
   clampHigh : Int → Int → Bool
+  /-- body of the second clamp, likewise -/
+  highAssign : Int → Int → Int → Int × Int
   isSeq : Int → Bool
+  /-- `for i := seqInit; seqLoop i n; i = seqPost i` -/
+  seqInit : Int
   seqLoop : Int → Int → Bool
+  seqPost : Int → Int
   seqStops : Bool → Bool
   counterInit : Int
   counterDelta : Int
@@ -30,7 +40,10 @@ structure Code where
   workerDone : Int → Int → Bool
   workerCancelled : Bool → Bool
   workerFailed : Bool → Bool
+  /-- `for j := spawnInit; spawnLoop j parallelism; j = spawnPost j` -/
+  spawnInit : Int
   spawnLoop : Int → Int → Bool
+  spawnPost : Int → Int
   /-- conjunction of the presence-of-statement facts of the body -/
   structural : Bool
 
@@ -38,9 +51,13 @@ structure Code where
 def doCode : Code where
   ctxMode := false
   clampLow := Par.doClampLow
+  lowAssign := ParDoFacts.doClampLowAssign
   clampHigh := Par.doClampHigh
+  highAssign := ParDoFacts.doClampHighAssign
   isSeq := Par.doSeq
+  seqInit := ParDoFacts.doSeqInit
   seqLoop := Par.doSeqLoop
+  seqPost := ParDoFacts.doSeqPost
   seqStops := fun b => b
   counterInit := Par.doCounterInit
   counterDelta := Par.doCounterDelta
@@ -48,7 +65,9 @@ def doCode : Code where
   workerDone := Par.doWorkerDone
   workerCancelled := fun b => b
   workerFailed := fun b => b
+  spawnInit := ParDoFacts.doSpawnInit
   spawnLoop := Par.doSpawnLoop
+  spawnPost := ParDoFacts.doSpawnPost
   structural := Par.doSeqCalls && Par.doSeqReturns && Par.doSpawnsGoroutine && Par.doWorkerReturnsWhenDone
     && Par.doWorkerCalls && Par.doFetchBeforeCall && Par.doWgAdd && Par.doWgDone && Par.doWgWait
     && Par.doAddBeforeWait
@@ -57,9 +76,13 @@ def doCode : Code where
 def dcCode : Code where
   ctxMode := true
   clampLow := Par.dcClampLow
+  lowAssign := ParDoFacts.dcClampLowAssign
   clampHigh := Par.dcClampHigh
+  highAssign := ParDoFacts.dcClampHighAssign
   isSeq := Par.dcSeq
+  seqInit := ParDoFacts.dcSeqInit
   seqLoop := Par.dcSeqLoop
+  seqPost := ParDoFacts.dcSeqPost
   seqStops := Par.dcSeqStops
   counterInit := Par.dcCounterInit
   counterDelta := Par.dcCounterDelta
@@ -67,30 +90,28 @@ def dcCode : Code where
   workerDone := Par.dcWorkerDone
   workerCancelled := Par.dcWorkerCancelled
   workerFailed := Par.dcWorkerFailed
+  spawnInit := ParDoFacts.dcSpawnInit
   spawnLoop := Par.dcSpawnLoop
+  spawnPost := ParDoFacts.dcSpawnPost
   structural := Par.dcSeqCalls && Par.dcSeqReturnsErr && Par.dcSeqReturnsNil && Par.dcErrgroup
     && Par.dcWorkerReturnsNilWhenDone && Par.dcWorkerReturnsCtxErr && Par.dcWorkerCalls
     && Par.dcWorkerReturnsErr && Par.dcFetchBeforeCheck && Par.dcCheckBeforeCall
     && Par.dcSpawnsViaErrgroup && Par.dcReturnsWait
-
-/-- The wrappers `Map` / `MapContext`: positional write, length and parallelism passed through. -/
-def mapStructural : Bool :=
-  Par.mapAllocates && Par.mapWritesPositionally && Par.mapReturnsOut
-    && decide (∀ l ∈ [(0 : Int), 1, 7], Par.mapN l = l ∧ Par.mapParallelism l = l)
-
-def mapContextStructural : Bool :=
-  Par.mcAllocates && Par.mcWritesPositionally && Par.mcCallbackReturnsErr && Par.mcReturnsErr
-    && Par.mcReturnsOut && Par.mcFailed true && !Par.mcFailed false
-    && decide (∀ l ∈ [(0 : Int), 1, 7], Par.mcN l = l ∧ Par.mcParallelism l = l)
 
 /-- What the proofs need to know about the anchored expressions. Discharged for `doCode` and
 `dcCode` from the regenerated definitions (`Proofs/ParDo*.lean`): an operator flipped in the source
 makes that proof fail. -/
 structure Code.Sound (c : Code) : Prop where
   clampLow : ∀ p, c.clampLow p = decide (p ≤ 0)
+  /-- `parallelism = runtime.GOMAXPROCS(-1)`: parallelism becomes GOMAXPROCS, `n` is untouched -/
+  lowAssign : ∀ p n g, c.lowAssign p n g = (g, n)
   clampHigh : ∀ p n, c.clampHigh p n = decide (p > n)
+  /-- `parallelism = n`: parallelism becomes `n`, `n` is untouched -/
+  highAssign : ∀ p n g, c.highAssign p n g = (n, n)
   isSeq : ∀ p, c.isSeq p = decide (p = 1)
+  seqInit : c.seqInit = 0
   seqLoop : ∀ i n, c.seqLoop i n = decide (i < n)
+  seqPost : ∀ i, c.seqPost i = i + 1
   seqStops : ∀ b, c.seqStops b = b
   counterInit : c.counterInit = -1
   counterDelta : c.counterDelta = 1
@@ -98,7 +119,9 @@ structure Code.Sound (c : Code) : Prop where
   workerDone : ∀ i n, c.workerDone i n = decide (i ≥ n)
   workerCancelled : ∀ b, c.workerCancelled b = b
   workerFailed : ∀ b, c.workerFailed b = b
+  spawnInit : c.spawnInit = 0
   spawnLoop : ∀ j p, c.spawnLoop j p = decide (j < p)
+  spawnPost : ∀ j, c.spawnPost j = j + 1
   structural : c.structural = true
 
 structure Cfg where
@@ -109,20 +132,32 @@ structure Cfg where
   /-- `runtime.GOMAXPROCS(-1)` -/
   gmp : Nat
 
-/-- parallelism after `if parallelism <= 0 { parallelism = GOMAXPROCS }` -/
-def reqPar (cfg : Cfg) : Int := if cfg.code.clampLow cfg.P then (cfg.gmp : Int) else cfg.P
+/-- the pair (parallelism, n) after the first clamp statement `if clampLow parallelism { <lowAssign> }` -/
+def afterLow (cfg : Cfg) : Int × Int :=
+  if cfg.code.clampLow cfg.P then cfg.code.lowAssign cfg.P cfg.n cfg.gmp else (cfg.P, (cfg.n : Int))
 
-/-- parallelism after `if parallelism > n { parallelism = n }` -/
-def effPar (cfg : Cfg) : Int :=
-  if cfg.code.clampHigh (reqPar cfg) cfg.n then (cfg.n : Int) else reqPar cfg
+/-- the pair (parallelism, n) after the second clamp statement `if clampHigh parallelism n { <highAssign> }` -/
+def afterHigh (cfg : Cfg) : Int × Int :=
+  let pn := afterLow cfg
+  if cfg.code.clampHigh pn.1 pn.2 then cfg.code.highAssign pn.1 pn.2 cfg.gmp else pn
 
-/-- number of iterations of `for j := 0; cond j; j++` (with fuel) -/
-def loopCount (cond : Int → Bool) : Nat → Int → Nat
+/-- parallelism after the first clamp (`if parallelism <= 0 { parallelism = GOMAXPROCS }`): the requested parallelism -/
+def reqPar (cfg : Cfg) : Int := (afterLow cfg).1
+
+/-- parallelism after the second clamp (`if parallelism > n { parallelism = n }`): the effective parallelism -/
+def effPar (cfg : Cfg) : Int := (afterHigh cfg).1
+
+/-- the value of the variable `n` after both clamps (the loops below compare against it) -/
+def effN (cfg : Cfg) : Int := (afterHigh cfg).2
+
+/-- number of iterations of `for j := j0; cond j; j = post j` (with fuel) -/
+def loopCount (cond : Int → Bool) (post : Int → Int) : Nat → Int → Nat
   | 0, _ => 0
-  | f + 1, j => if cond j then loopCount cond f (j + 1) + 1 else 0
+  | f + 1, j => if cond j then loopCount cond post f (post j) + 1 else 0
 
+/-- number of goroutines the spawn loop `for j := spawnInit; spawnLoop j parallelism; j = spawnPost j` starts -/
 def numWorkers (cfg : Cfg) : Nat :=
-  loopCount (fun j => cfg.code.spawnLoop j (effPar cfg)) ((effPar cfg).toNat + 1) 0
+  loopCount (fun j => cfg.code.spawnLoop j (effPar cfg)) cfg.code.spawnPost ((effPar cfg).toNat + 1) cfg.code.spawnInit
 
 inductive Err where
   /-- error number `k` returned by a call of `f` -/
@@ -185,8 +220,6 @@ structure St where
   egErr : Option Err
   /-- the call has returned with this result -/
   ret : Option (Option Err)
-  /-- `out` of Map/MapContext -/
-  out : List (Option Nat)
   /-- ghost: calls of `f` in the order they began -/
   begun : List Begun
   /-- ghost: returns of `f` in order -/
@@ -197,13 +230,14 @@ structure St where
 
 def init (cfg : Cfg) : St :=
   if cfg.code.isSeq (effPar cfg) then
-    { seq := true, x := 0, ws := [if cfg.code.seqLoop 0 cfg.n then .call 0 else .done],
+    { seq := true, x := cfg.code.seqInit,
+      ws := [if cfg.code.seqLoop cfg.code.seqInit (effN cfg) then .call cfg.code.seqInit.toNat else .done],
       callerCancelled := false, dCause := none, egErr := none, ret := none,
-      out := List.replicate cfg.n none, begun := [], ended := [], skipped := [] }
+      begun := [], ended := [], skipped := [] }
   else
     { seq := false, x := cfg.code.counterInit, ws := List.replicate (numWorkers cfg) .fetch,
       callerCancelled := false, dCause := none, egErr := none, ret := none,
-      out := List.replicate cfg.n none, begun := [], ended := [], skipped := [] }
+      begun := [], ended := [], skipped := [] }
 
 inductive Label where
   | fetch (w : Nat)
@@ -226,11 +260,6 @@ def Label.isEnv : Label → Bool
 def ctxCancelled (s : St) : Bool :=
   if s.seq then s.callerCancelled else s.dCause.isSome
 
-/-- the wrapper's `out[i] = f(in[i])` (Map) / `out[i], err = f(ctx, in[i])` (MapContext) -/
-def writeOut (out : List (Option Nat)) (i : Nat) : Res → List (Option Nat)
-  | .ok v => out.set i (some v)
-  | .err _ => out
-
 def allDone (ws : List Pc) : Bool := ws.all (fun pc => match pc with | .done => true | _ => false)
 
 def step (cfg : Cfg) (s : St) : Label → Option St
@@ -240,7 +269,7 @@ def step (cfg : Cfg) (s : St) : Label → Option St
       if s.seq then none else
       let xn := s.x + cfg.code.counterDelta
       let i := cfg.code.fetch xn
-      if cfg.code.workerDone i cfg.n then some { s with x := xn, ws := s.ws.set w .done }
+      if cfg.code.workerDone i (effN cfg) then some { s with x := xn, ws := s.ws.set w .done }
       else if cfg.code.ctxMode then some { s with x := xn, ws := s.ws.set w (.check i.toNat) }
       else some { s with x := xn, ws := s.ws.set w (.call i.toNat) }
     | _ => none
@@ -264,27 +293,26 @@ def step (cfg : Cfg) (s : St) : Label → Option St
     | some (.inF i) =>
       if r.isErr && !cfg.code.ctxMode then none else
       let ended := s.ended ++ [(i, r)]
-      let out := writeOut s.out i r
       if s.seq then
         match r with
         | .err k =>
           if cfg.code.seqStops true then
-            some { s with ws := s.ws.set w (.retErr (.f k)), ended := ended, out := out }
+            some { s with ws := s.ws.set w (.retErr (.f k)), ended := ended }
           else
-            let xn := s.x + 1
-            some { s with x := xn, ended := ended, out := out,
-                          ws := s.ws.set w (if cfg.code.seqLoop xn cfg.n then .call xn.toNat else .done) }
+            let xn := cfg.code.seqPost s.x
+            some { s with x := xn, ended := ended,
+                          ws := s.ws.set w (if cfg.code.seqLoop xn (effN cfg) then .call xn.toNat else .done) }
         | .ok _ =>
-          let xn := s.x + 1
-          some { s with x := xn, ended := ended, out := out,
-                        ws := s.ws.set w (if cfg.code.seqLoop xn cfg.n then .call xn.toNat else .done) }
+          let xn := cfg.code.seqPost s.x
+          some { s with x := xn, ended := ended,
+                        ws := s.ws.set w (if cfg.code.seqLoop xn (effN cfg) then .call xn.toNat else .done) }
       else
         match r with
         | .err k =>
           if cfg.code.workerFailed true then
-            some { s with ws := s.ws.set w (.retErr (.f k)), ended := ended, out := out }
-          else some { s with ws := s.ws.set w .fetch, ended := ended, out := out }
-        | .ok _ => some { s with ws := s.ws.set w .fetch, ended := ended, out := out }
+            some { s with ws := s.ws.set w (.retErr (.f k)), ended := ended }
+          else some { s with ws := s.ws.set w .fetch, ended := ended }
+        | .ok _ => some { s with ws := s.ws.set w .fetch, ended := ended }
     | _ => none
   | .egDone w =>
     match s.ws[w]? with
